@@ -668,8 +668,14 @@ outer:
 			}
 			for _, kc := range kinds {
 				cnt := kc.count
-				if cnt > 24 {
-					cnt = 24 // cap per kind per op; first 24 call sites
+				// cap per kind per op: every Load / Unmarshal call up to 24, the first 10 compare /
+				// marshal calls (there are many more of those and they exercise the same few sites)
+				lim := 24
+				if kc.kind == 2 || kc.kind == 3 {
+					lim = 10
+				}
+				if cnt > lim {
+					cnt = lim
 				}
 				for idx := 1; idx <= cnt; idx++ {
 					fs := sc.Clone()
